@@ -28,7 +28,9 @@ RULE = (
     "in the past, end_time absent / on / 1ns before / 1ns after event times. Real delivery log (from handlers and from "
     "the engine probe) compared with a reference interpreter of the documented semantics. Non-trivial: the run had a "
     "same-nanosecond tie between a pre-run and a run-created event, or popped a cancelled event, or ended with only "
-    "daemon events pending. Distinct by hash of the program."
+    "daemon events pending. Family `rerun`: the same Simulation object is run, reset through the control surface and "
+    "run again; both runs are compared with the reference (events built in one order and scheduled in another, some "
+    "cancelled before the first run). Distinct by hash of the program."
 )
 ASSUMPTIONS = [
     "an event later than end_time is not live; its delivery (the engine's one-event overshoot) is counted, not judged",
@@ -294,13 +296,67 @@ def _gen_boundary(rng: random.Random, tier: str) -> dict:
     return prog
 
 
+def _gen_rerun(rng: random.Random, tier: str) -> dict:
+    """The same Simulation object run, reset through the control surface, and run again."""
+    prog = gen_program(rng, futures=False, hooks=False, max_pre=20)
+    # the harness keeps handles to the first run's event objects: no in-run cancels through them
+    for act in prog["table"].values():
+        act["cancel"] = []
+        if act.get("body"):
+            act["body"] = [s for s in act["body"] if s["op"] != "cancel"]
+    prog["rerun"] = True
+    return prog
+
+
+def run_rerun(case: dict) -> Result:
+    """Second run of a reused Simulation (after control.reset()) against the same reference."""
+    from hsverif.probe import EngineProbe, quiet_library_logging
+
+    quiet_library_logging()
+    res = Result()
+    if not program_is_valid(case):
+        res.inconclusive = "invalid program"
+        return res
+    ref = run_reference(case)
+    rr = RealRun(case)
+    sim = rr.make()
+    end_ns = case.get("end_ns")
+    with EngineProbe(log_deliveries=False, instant_cap=50000, total_cap=400000) as p:
+
+        def go():
+            sim.run()
+            first = rr.log
+            rr.log = []
+            rr.pid = len(case["pre"])  # run-created payload ids restart where the first run's started
+            sim.control.reset()
+            sim.run()
+            return first
+
+        box = {}
+        status = p.run(sim, lambda: box.setdefault("first", go()))
+    if status != "completed":
+        res.inconclusive = f"run did not complete: {status}"
+        return res
+    res.count("events_monitored", p.n_deliveries)
+    res.count("reruns_compared")
+    if compare_logs(res, box["first"], ref, end_ns):
+        compare_logs(res, rr.log, ref, end_ns, component="Simulation(reused after reset)")
+    counts = Counter(e[3] for e in rr.log if e[0] == "D")
+    dup = [pid for pid, n in counts.items() if n > 1]
+    if dup:
+        res.add("duplicate-delivery", "Simulation(reused after reset)", "event-delivered-twice", detail=f"pids {dup[:5]}")
+    res.nontrivial = any(s.get("cancel_pre") for s in case["pre"]) or case["sched_order"] != sorted(case["sched_order"])
+    return res
+
+
 FAMILIES = {
+    "rerun": Family("rerun", _gen_rerun, run_rerun, shrink=shrink_program, case_timeout=30.0),
     "programs": Family("programs", gen, run, shrink=shrink_program, case_timeout=30.0),
     "boundary": Family("boundary", _gen_boundary, run, shrink=shrink_program, case_timeout=30.0),
     "inject": Family("inject", _gen_inject, run, case_timeout=30.0),
 }
 
 BUDGET = {
-    "quick": {"programs": 3000, "boundary": 600, "inject": 600},
-    "thorough": {"programs": 150000, "boundary": 30000, "inject": 30000},
+    "quick": {"programs": 3000, "boundary": 600, "inject": 600, "rerun": 800},
+    "thorough": {"programs": 150000, "boundary": 30000, "inject": 30000, "rerun": 30000},
 }
